@@ -301,7 +301,7 @@ Proof.
   unfold do_statement, setting_node. cbn [root kids]. unfold do_setting. cbn [next_unwrap pbind text].
   unfold item_okb, item_action in Hok. unfold apply_item, item_action.
   destruct (assoc_str (to_lower (wi_keytext it)) setting_table) as [[f | f | f | mask | sp] |];
-    destruct (wi_value it) as [n | s]; try discriminate Hok; unfold do_action, value_node; cbv zeta.
+    destruct (wi_value it) as [n | s]; try discriminate Hok; try reflexivity; unfold do_action, value_node; cbv zeta.
   - apply andb_true_iff in Hok. destruct Hok as [Hn Hv]. apply Z.leb_le in Hv.
     rewrite parse_number_written; [reflexivity | exact Hn | exact Hv | apply nfield_max_u32].
   - rewrite parse_string_written by exact Hok. reflexivity.
@@ -495,4 +495,47 @@ Proof.
   - intros f Hf. cbn [set_num set_prm d_flag]. unfold G. rewrite fold_keep_flag by exact Hf. reflexivity.
   - unfold rest_of in *. cbn [set_num set_prm d_modules d_slots d_prm d_bits d_notbits d_areas].
     injection Hrest as H1 H2 H3 H4 H5 H6. rewrite H1, H2, H4, H5, H6. reflexivity.
+Qed.
+
+(* ------------------------------------------------------------------------------------------ the settings trees are well shaped *)
+
+Lemma leaf_shape : forall r t, child_rx r = REps -> Shape (Node r t []).
+Proof. intros r t H. constructor. rewrite H. constructor. Qed.
+
+Lemma value_node_shape : forall v, Shape (value_node v).
+Proof.
+  intros [[ds | ds] | s]; cbn [value_node wnum_rule]; apply leaf_shape; vm_compute; reflexivity.
+Qed.
+
+Lemma setting_node_shape : forall it, Shape (setting_node it).
+Proof.
+  intros it. unfold setting_node. constructor. apply rmatch_kids.
+  - constructor; [apply leaf_shape; vm_compute; reflexivity |]. constructor; [apply value_node_shape | constructor].
+  - cbn [map root]. destruct (wi_value it) as [[ds | ds] | s]; cbn [value_node wnum_rule root]; vm_compute; reflexivity.
+Qed.
+
+Definition gsd_tail : rx := deriv R_setting (deriv R_start (deriv R_any_text (child_rx R_gsd))).
+
+Lemma gsd_tail_step : deriv R_setting gsd_tail = gsd_tail.
+Proof. vm_compute. reflexivity. Qed.
+
+Lemma gsd_tail_settings : forall items,
+  rmatch gsd_tail (map root (map setting_node items ++ [Node R_EOI [] []])) = true.
+Proof.
+  induction items as [| it items IH].
+  - vm_compute. reflexivity.
+  - cbn [map app rmatch]. change (root (setting_node it)) with R_setting. rewrite gsd_tail_step. exact IH.
+Qed.
+
+Theorem settings_tree_shape : forall pre mk items, items <> [] -> Shape (settings_tree pre mk items).
+Proof.
+  intros pre mk items Hne. destruct items as [| it items]; [congruence |].
+  unfold settings_tree. constructor. apply rmatch_kids.
+  - constructor; [apply leaf_shape; vm_compute; reflexivity |].
+    constructor; [apply leaf_shape; vm_compute; reflexivity |].
+    apply Forall_app. split.
+    + apply Forall_forall. intros t Hin. apply in_map_iff in Hin. destruct Hin as [x [<- _]]. apply setting_node_shape.
+    + constructor; [apply leaf_shape; vm_compute; reflexivity | constructor].
+  - cbn [map app rmatch]. change (root (setting_node it)) with R_setting.
+    fold gsd_tail. exact (gsd_tail_settings items).
 Qed.
